@@ -113,6 +113,9 @@ def refill_check(fn, first, second, variants):
     array in place with `second`, call again (for every v in variants) and compare with the call on
     a fresh copy of `second`.  Returns symptom strings."""
     syms = []
+    # the refill must be expressible in the buffer's own representation (integer / single-precision buffers): what is
+    # compared is "reused object" vs "fresh object" holding the SAME stored values
+    second = np.asarray(second).astype(np.asarray(first).dtype)
     for v1 in variants:
         for v2 in variants:
             buf = np.array(first, copy=True)
@@ -120,7 +123,9 @@ def refill_check(fn, first, second, variants):
                 fn(buf, v1)
                 buf[...] = second
                 got = fn(buf, v2)
-                want = fn(np.array(second, copy=True), v2)
+                fresh = np.array(first, copy=True)       # a fresh object with the buffer's dtype AND memory layout
+                fresh[...] = second
+                want = fn(fresh, v2)
             except Exception as e:  # noqa
                 syms.append('refill/raises-%s' % type(e).__name__)
                 return syms
